@@ -70,7 +70,8 @@ class DateTimeArray(MutableSequence[DateTime]):
             as_tuple = TimeValueTuple.from_cvi(*entry)
             return DateTime.from_tuple(as_tuple)
         elif isinstance(index, slice):
-            sliced_entries = self._array[index]
+            # Copy, like list slicing: the result must not alias this array's storage.
+            sliced_entries = self._array[index].copy()
             new_array = DateTimeArray()
             new_array._array = sliced_entries
             return new_array
